@@ -218,15 +218,21 @@ def rule_x4(repo):
         fl = flow_of(ac.node)
         entries = {n.targets[0].id for n in ast.walk(ac.node) if isinstance(n, ast.Assign) and isinstance(n.targets[0], ast.Name) and
                    isinstance(n.value, ast.Subscript) and is_name(n.value.value, 'assigns')}
-        need(entries, 'analyze_conflict: trail entry is not read')
+        direct = [x for x in ast.walk(ac.node) if isinstance(x, ast.Subscript) and isinstance(x.value, ast.Subscript) and is_name(x.value.value, 'assigns')]
+        need(entries or direct, 'analyze_conflict: trail entry is not read')
+
+        def is_entry(v):
+            # a local that holds the entry, or the entry read in place: assigns[name]
+            return (isinstance(v, ast.Name) and v.id in entries) or (isinstance(v, ast.Subscript) and is_name(v.value, 'assigns'))
 
         def comp(x, k):
-            return isinstance(x, ast.Subscript) and isinstance(x.value, ast.Name) and x.value.id in entries and isinstance(x.slice, ast.Constant) and x.slice.value == k
-        used_dec = any(isinstance(n, ast.If) and any(comp(x, 1) for x in ast.walk(n.test)) for n in ast.walk(ac.node))
+            return isinstance(x, ast.Subscript) and is_entry(x.value) and isinstance(x.slice, ast.Constant) and x.slice.value == k
+        dec_names = {n.targets[0].id for n in ast.walk(ac.node) if isinstance(n, ast.Assign) and isinstance(n.targets[0], ast.Name) and comp(n.value, 1)}
+        used_dec = any(isinstance(n, ast.If) and any(comp(x, 1) or (isinstance(x, ast.Name) and x.id in dec_names) for x in ast.walk(n.test)) for n in ast.walk(ac.node))
         reason_names = {n.targets[0].id for n in ast.walk(ac.node) if isinstance(n, ast.Assign) and isinstance(n.targets[0], ast.Name) and comp(n.value, 3)}
         used_reason = any(isinstance(c, ast.Call) and call_name(c) == 'resolution' and
                           any(comp(x, 3) or (isinstance(x, ast.Name) and x.id in reason_names) for a in c.args for x in ast.walk(a)) for c in ast.walk(ac.node))
-        other = [x.slice.value for x in ast.walk(ac.node) if isinstance(x, ast.Subscript) and isinstance(x.value, ast.Name) and x.value.id in entries and
+        other = [x.slice.value for x in ast.walk(ac.node) if isinstance(x, ast.Subscript) and is_entry(x.value) and
                  isinstance(x.slice, ast.Constant) and x.slice.value not in (0, 1, 2, 3)]
         ok = used_dec and used_reason and not other
     res.add('%s :: solve_cnf.analyze_conflict :: trail-read' % SAT, ok,
